@@ -63,6 +63,92 @@ def reorient(obj, perm, flip):
     return o
 
 
+def expected_counts(cells, pardim, period=None):
+    """numbers of d-dimensional entities of the cell complex; with period N the lattice is wrapped along axis 0
+    (coordinate N is coordinate 0), which includes N = 1: one cell whose two opposite ends are the same face"""
+    def pt(ax, v):
+        return ('P', v % period) if (period and ax == 0) else ('P', v)
+
+    def seg(ax, v):
+        return ('I', v % period) if (period and ax == 0) else ('I', v)
+    expected = {}
+    for d in range(pardim + 1):
+        ents = set()
+        for c in cells:
+            for fixed in itertools.combinations(range(pardim), pardim - d):
+                for vals in itertools.product([0, 1], repeat=pardim - d):
+                    key = []
+                    it = iter(vals)
+                    for ax in range(pardim):
+                        key.append(pt(ax, c[ax] + next(it)) if ax in fixed else seg(ax, c[ax]))
+                    ents.add(tuple(key))
+        expected[d] = len(ents)
+    return expected
+
+
+def build_ring(rng, pardim, order=2, refine=0, rational=False, repeat_knot=False, nring=None):
+    """Conforming complexes that close around an axis: the lattice is periodic along axis 0 with nring cells per turn.
+    nring = 1: every patch is a ring cut open along a seam, so its first and last face along axis 0 are ONE interface
+    (a patch adjacent to itself); nring = 2: two patches that meet along two different interfaces; nring = 3: an
+    ordinary closed chain.  Other axes: 1-2 cells (radial / axial stacking).  Coincident control points are computed
+    from the same table of angles, so they are bitwise equal."""
+    import math
+    from splipy import BSplineBasis, Surface, Volume
+    nring = nring or rng.choice([1, 1, 2, 3])
+    M = {1: rng.choice([3, 4, 5]), 2: rng.choice([2, 3]), 3: rng.choice([1, 2])}[nring]     # polyline spans per patch
+    nrad = rng.randint(1, 2)
+    nax = rng.randint(1, 2) if pardim == 3 else 1
+    dim = 3 if pardim == 3 else rng.choice([2, 3])
+    tot = nring * M
+    ang = [2 * math.pi * g / tot + 0.1 for g in range(tot)]
+    sx, sy = rng.choice([1.0, 1.5]), rng.choice([1.0, 0.75])
+    tilt = rng.choice([0.0, 0.25])
+
+    def point(g, r, z):
+        a = ang[g % tot]
+        x, y = (1.0 + r) * sx * math.cos(a), (1.0 + r) * sy * math.sin(a)
+        return [x, y, z + tilt * x][:dim] if dim == 3 else [x, y]
+    cells = [(i, j) + ((k,) if pardim == 3 else ()) for i in range(nring) for j in range(nrad) for k in range(nax)]
+    cls = {2: Surface, 3: Volume}[pardim]
+    patches = []
+    for c in cells:
+        b0 = BSplineBasis(2, [0.0] + [m / M for m in range(M + 1)] + [1.0])
+        cps = []
+        # first index fastest
+        for kk in (range(2) if pardim == 3 else [0]):
+            for jj in range(2):
+                for m in range(M + 1):
+                    cps.append(point(c[0] * M + m, c[1] + jj, (c[2] + kk) if pardim == 3 else 0.0))
+        o = cls(*([b0] + [BSplineBasis(2) for _ in range(pardim - 1)]), cps)
+        patches.append(_dress(rng, o, pardim, order, refine, repeat_knot, rational, False))
+    order_ = list(range(len(patches)))
+    rng.shuffle(order_)
+    return dict(patches=[patches[i] for i in order_], cells=[cells[i] for i in order_], kind='ring%d' % nring,
+                expected=expected_counts(cells, pardim, nring), phi=None, pardim=pardim, dim=dim, period=nring)
+
+
+def _dress(rng, o, pardim, order, refine, repeat_knot, rational, right_handed):
+    """order elevation, refinement, repeated knots, rationality and a random re-orientation of one patch"""
+    if order > 2:
+        o.raise_order(*([order - 2] * pardim))
+    if refine:
+        o.refine(refine)
+    if repeat_knot and order >= 3:
+        for d_ in range(pardim):
+            have = sum(1 for x in o.knots(d_, with_multiplicities=True) if abs(x - 0.5) < 1e-12)
+            if have < 2:
+                o.insert_knot([0.5] * (2 - have), d_)
+    if rational:
+        o.force_rational()
+    ors = orientations(pardim)
+    while True:
+        perm, flip = rng.choice(ors)
+        parity = (sum(flip) + sum(1 for i in range(pardim) for j in range(i) if perm[j] > perm[i])) % 2
+        if not right_handed or parity == 0:
+            break
+    return reorient(o, perm, flip)
+
+
 def build(rng, pardim, dim=None, order=2, refine=0, rational=False, right_handed=False, phi=None, cells=None, kind=None, repeat_knot=False):
     """returns dict(patches=[SplineObject], cells=[...], kind=..., expected={d: count}, phi=phi)"""
     from splipy import BSplineBasis, Curve, Surface, Volume
@@ -117,12 +203,13 @@ def build(rng, pardim, dim=None, order=2, refine=0, rational=False, right_handed
     return dict(patches=[patches[i] for i in order_], cells=[cells[i] for i in order_], kind=kind, expected=expected, phi=phi, pardim=pardim, dim=dim)
 
 
-def interior_faces(cells, pardim):
-    """codimension-one entities shared by two cells, and boundary ones: returns (shared:set, boundary:set) of keys"""
+def interior_faces(cells, pardim, period=None):
+    """codimension-one entities shared by two cells, and boundary ones: returns (shared:set, boundary:set) of keys;
+    with a period the lattice is wrapped along axis 0 (a cell may then meet itself)"""
     cnt = {}
     for c in cells:
         for ax in range(pardim):
             for v in (0, 1):
-                key = tuple((c[a] + v,) if a == ax else (c[a], c[a] + 1) for a in range(pardim))
+                key = tuple((((c[a] + v) % period) if (period and a == 0) else (c[a] + v),) if a == ax else (c[a], c[a] + 1) for a in range(pardim))
                 cnt.setdefault(key, []).append(c)
     return {k: v for k, v in cnt.items() if len(v) == 2}, {k: v for k, v in cnt.items() if len(v) == 1}
